@@ -46,8 +46,10 @@ def gen_job(verif_seed, tier, index):
         out = g.choice(["out.itp", "out.itp", "other.itp", "sub/out.itp"])
         if r < 0.15:
             op = histgen.failing_op(g, ff, rg, out=out)
-        elif r < 0.3:
+        elif r < 0.22:
             op = histgen.lib_op(g, out=out)
+        elif r < 0.3:
+            op = histgen.protein_op(g, histgen.protein_graph(g), out=out)
         else:
             op = histgen.make_op(ff, rg, g, out=out)
         if g.random() < 0.3:
